@@ -183,3 +183,25 @@ func noformatBefore(h hist.History, i int) bool {
 	}
 	return nf
 }
+
+// Regressions: exemplars of the recorded open findings (they fail the oracle on the
+// unchanged tree and are reported as KNOWN-FINDING by ./check).
+func (c02) Regressions() []*Case {
+	mk := func(name string, sts ...*term.Stmt) *Case {
+		h := hist.History{{Kind: "newfile", F: 0, A: "p"}}
+		for _, st := range sts {
+			h = append(h, hist.Op{Kind: "fadd", F: 0, Code: st})
+		}
+		h = append(h, hist.Op{Kind: "noformat", F: 0, Flag: false}, hist.Op{Kind: "render", F: 0})
+		return &Case{Name: name, Hist: h, Stream: "regression", NonTrivial: true, Meta: map[string]interface{}{"badlit": false}}
+	}
+	dict := &term.Dict{Pairs: [][2]term.Node{{term.S(term.Id("a")), term.S(term.Lit(1))}}}
+	return []*Case{
+		mk("values-dict-plus-item-panics",
+			term.S(term.Named("Var"), term.Id("x"), term.Op("="), term.Id("T"), term.G("Values", dict, term.S(term.Null())))),
+		mk("gofmt-hoists-plus-build-comment",
+			term.S(term.Named("Func"), term.Id("f"), term.G("Params"), term.G("Block",
+				term.S(term.Id("x"), term.Op(":="), term.Lit(1), term.Comment{Text: "+build ignore"}),
+				term.S(term.Id("y"), term.Op(":="), term.Id("x"))))),
+	}
+}
